@@ -3,16 +3,53 @@
    constants and shape facts (gen/FurlGen.v) are re-translated from the source on every run. *)
 From Coq Require Import ZArith NArith List String.
 Import ListNotations.
-Require Import Verif.lib.PyLite Verif.lib.Regex Verif.lib.RegexProofs Verif.gen.FurlGen Verif.lib.Furl Verif.lib.FurlProofs.
+Require Import Verif.lib.PyLite Verif.lib.Regex Verif.lib.RegexProofs Verif.gen.FurlGen Verif.lib.Utf8 Verif.lib.Furl Verif.lib.FurlProofs.
 Require Import Verif.lib.Connector Verif.lib.ConnectorProofs.
 Local Open Scope Z_scope.
 
-(* "Parsing a FURL either yields (tub id, hints, name) ... or raises the documented bad-FURL error":
-   decode_furl has no other outcome than a triple, BadFURLError or ValueError *)
+(* "Parsing a FURL either yields (tub id, hints, name) ... or raises the documented bad-FURL error".
+   DEVIATION, stated precisely: decode_furl has two error classes and BadFURLError is NOT a subclass of ValueError.
+   Read strictly (BadFURLError only) the sentence is refuted: C20_decode_strict_refuted.  The library's tested behaviour
+   (test_sturdyref.py asserts ValueError("unknown FURL prefix") for a string without the pb://..@../.. shape;
+   Tub.getConnectionInfoForFURL catches (ValueError, BadFURLError)) makes ValueError the documented error for strings that
+   are not FURLs at all, so the theorem proved is: no outcome other than a triple, BadFURLError or ValueError
+   (this theorem is a case split on decode_furl's structure; what the triple and the two errors mean is
+   C20_decode_error_classes, C20_decode_wf, C20_decode_encode) *)
 Theorem C20_decode_total : forall s,
   (exists t hs n, decode_furl s = Ok (t, hs, n)) \/ decode_furl s = Exc "BadFURLError" \/ decode_furl s = Exc "ValueError".
 Proof. exact decode_total. Qed.
 Print Assumptions C20_decode_total.
+
+(* which inputs get which error: ValueError exactly when the translated pattern finds no FURL in the string, BadFURLError
+   exactly when it finds one whose (cut) tub id is not base32 or one of whose hints is empty *)
+Theorem C20_decode_error_classes : forall s,
+  (decode_furl s = Exc "ValueError" <-> re_apply AUTH_STURDYREF_RE AUTH_STURDYREF_RE_method s = None) /\
+  (decode_furl s = Exc "BadFURLError" <->
+   exists c, re_apply AUTH_STURDYREF_RE AUTH_STURDYREF_RE_method s = Some c /\
+     (is_base32 (firstn TUBID_CUT (group_or_nil 1 c)) = false \/
+      existsb str_is_nil (let hs := split_on HINT_SEP (group_or_nil 2 c) in match hs with [[]] => [] | _ => hs end) = true)).
+Proof. exact decode_error_classes. Qed.
+Print Assumptions C20_decode_error_classes.
+
+(* documentation of the strict reading (BadFURLError only): refuted by "pb://a/n", on the real code too.  NOT a finding:
+   upstream's own test (test_sturdyref.py) asserts ValueError for a string that is not a FURL and its caller
+   (Tub.getConnectionInfoForFURL) catches (ValueError, BadFURLError), so ValueError is the documented error here *)
+Theorem C20_decode_strict_refuted : exists s, decode_furl s = Exc "ValueError".
+Proof. exact decode_strict_refuted. Qed.
+Print Assumptions C20_decode_strict_refuted.
+
+(* ... also when the FURL is offered as bytes (six.ensure_str = strict UTF-8 decoding): the only further outcome is
+   UnicodeDecodeError, which is a ValueError *)
+Theorem C20_decode_bytes_total : forall b,
+  (exists t hs n, decode_furl_bytes b = Ok (t, hs, n)) \/ decode_furl_bytes b = Exc "BadFURLError" \/
+  decode_furl_bytes b = Exc "ValueError" \/ decode_furl_bytes b = Exc "UnicodeDecodeError".
+Proof. exact decode_bytes_total. Qed.
+Print Assumptions C20_decode_bytes_total.
+
+(* ... and the UTF-8 bytes of a str decode exactly like the str (every Python str without lone surrogates) *)
+Theorem C20_decode_bytes_is_decode_str : forall s, forallb scalarb s = true -> decode_furl_bytes (utf8 s) = decode_furl s.
+Proof. exact decode_bytes_is_decode_str. Qed.
+Print Assumptions C20_decode_bytes_is_decode_str.
 
 (* "... such that re-encoding gives an equivalent FURL": whatever decode_furl returns decodes, after
    encode_furl, to the same triple *)
@@ -53,17 +90,61 @@ Theorem C20_copy_carries_identity : forall f, In f sturdyref_distinguishers -> I
 Proof. exact copy_carries_identity. Qed.
 Print Assumptions C20_copy_carries_identity.
 
+(* ordering (SturdyRef.__lt__ compares the same translated _distinguishers tuples): for references that have a tub id and a
+   name -- everything built from a FURL -- `<` never raises and exactly one of a < b, a == b, b < a holds *)
+Theorem C20_sturdy_lt_trichotomy : forall a b,
+  ((exists t, sr_tub a = Some t) /\ (exists n, sr_name a = Some n)) ->
+  ((exists t, sr_tub b = Some t) /\ (exists n, sr_name b = Some n)) ->
+  exists x y, sref_ltb a b = Ok x /\ sref_ltb b a = Ok y /\
+    ((x = true /\ sref_eqb a b = false /\ y = false) \/ (x = false /\ sref_eqb a b = true /\ y = false) \/
+     (x = false /\ sref_eqb a b = false /\ y = true)).
+Proof. exact sturdy_lt_trichotomy. Qed.
+Print Assumptions C20_sturdy_lt_trichotomy.
+
 Theorem C20_tubref_eq : forall a b, tubref_eqb a b = true <-> sr_tub a = sr_tub b.
 Proof. exact tubref_eq. Qed.
 Print Assumptions C20_tubref_eq.
 
 (* "Classifying a connection hint ... ends in an endpoint or the documented invalid-hint error - never
-   another exception", for all registered handler sets (type name -> tcp / tor / i2p handler), all
-   address filters, all strings *)
+   another exception", for all registered handler sets (type name -> foolscap's tcp / tor / i2p handler, the i2p
+   handler with or without a default port, or ANY third-party plugin given by what its hint_to_endpoint returns /
+   raises), all address filters, all strings.  The only hypothesis is on third-party plugins: each must itself answer
+   with an endpoint or InvalidHintError (see C20_hint_exception_origin for what happens otherwise) *)
 Theorem C20_hint_total : forall (handlers : list (str * hkind)) (nonpublic : str -> bool) (loc : str),
+  Forall (fun h => match snd h with
+                   | KPlugin f => forall x, (exists e, f x = Ok e) \/ f x = Exc "InvalidHintError"
+                   | _ => True
+                   end) handlers ->
   (exists e, get_endpoint handlers nonpublic loc = Ok e) \/ get_endpoint handlers nonpublic loc = Exc "InvalidHintError".
-Proof. exact hint_total. Qed.
+Proof. exact hint_total_all. Qed.
 Print Assumptions C20_hint_total.
+
+(* the i2p handler (form of commit 733f931, translated): an I2P hint always gives an endpoint, whose port is the hint's own
+   non-zero port, else the handler's default port (None without one) *)
+Theorem C20_i2p_port_choice : forall dflt hint,
+  i2p_hint_to_endpoint I2P_POPS_PORT dflt hint = Exc "InvalidHintError" \/
+  exists host pn, i2p_hint_to_endpoint I2P_POPS_PORT dflt hint = Ok (EpI2p host pn) /\ (pn = dflt \/ exists v, pn = Some v /\ v <> 0).
+Proof. exact i2p_port_choice. Qed.
+Print Assumptions C20_i2p_port_choice.
+
+(* ... for ALL handler sets the dispatch (legacy conversion, colon test, lookup) raises nothing itself: any other
+   exception is the one that the handler registered for the hint's type raised on that hint ... *)
+Theorem C20_hint_exception_origin : forall handlers nonpublic loc e,
+  get_endpoint handlers nonpublic loc = Exc e ->
+  e = "InvalidHintError"%string \/
+  exists hint kd, convert_legacy_hint loc = Ok hint /\
+                  lookup_handler (take_until HINT_TYPE_SEP hint) handlers = Some kd /\
+                  hint_to_endpoint nonpublic kd hint = Exc e.
+Proof. exact (hint_exception_origin I2P_POPS_PORT). Qed.
+Print Assumptions C20_hint_exception_origin.
+
+(* ... and foolscap's own handlers raise nothing but InvalidHintError, except the pre-733f931 i2p handler with a default port *)
+Theorem C20_builtin_handler_exceptions : forall nonpublic kd hint e,
+  (match kd with KPlugin _ => False | _ => True end) ->
+  hint_to_endpoint nonpublic kd hint = Exc e ->
+  e = "InvalidHintError"%string \/ (e = "TypeError"%string /\ I2P_POPS_PORT = false /\ exists d, kd = KI2p (Some d)).
+Proof. exact (builtin_exceptions I2P_POPS_PORT). Qed.
+Print Assumptions C20_builtin_handler_exceptions.
 
 (* "... always terminates in time proportional to its length": for each of the four translated hint
    patterns, applied the way the source applies it, the backtracking matcher takes at most
@@ -81,16 +162,49 @@ Theorem C20_linear_analysis_sound : forall p meth Kb, linear_bound p meth = Some
 Proof. exact linear_bound_sound. Qed.
 Print Assumptions C20_linear_analysis_sound.
 
-(* FURL matching terminates within a quadratic number of steps.  (A linear bound does NOT hold:
-   AUTH_STURDYREF_RE is unanchored and applied with .search(); FurlProofs.furl_quadratic_witness and
-   the known finding oracle/furl-quadratic.)
-   full-strength statement that is refuted by the witness:
-     forall s, re_steps AUTH_STURDYREF_RE AUTH_STURDYREF_RE_method s <= K * (|s| + 1)  *)
+(* FURL matching: "time proportional to its length" is REFUTED for decode_furl on the current tree (AUTH_STURDYREF_RE is
+   unanchored and applied with .search(): known finding oracle/furl-quadratic), and the growth is characterised
+   from both sides.
+   full-strength statement:  exists K, forall s, re_steps AUTH_STURDYREF_RE AUTH_STURDYREF_RE_method s <= K * (|s| + 1)
+   (1) refuted for every constant K *)
+Theorem C20_furl_linear_refuted : forall K : N, exists s,
+  (K * (N.of_nat (List.length s) + 1) < re_steps AUTH_STURDYREF_RE AUTH_STURDYREF_RE_method s)%N.
+Proof. exact furl_linear_refuted. Qed.
+Print Assumptions C20_furl_linear_refuted.
+
+(* (2) the witness family, for every size: "pb://" k times costs at least (5/2) k (k - 1) steps *)
+Theorem C20_furl_quadratic_lower : forall k,
+  (5 * N.of_nat k * N.of_nat k <= 2 * re_steps AUTH_STURDYREF_RE AUTH_STURDYREF_RE_method (pb_repeat k) + 5 * N.of_nat k)%N.
+Proof. exact furl_search_lower. Qed.
+Print Assumptions C20_furl_quadratic_lower.
+
+(* (3) upper bound on every subject: quadratic ... *)
 Theorem C20_furl_steps_bounded_partial : forall s,
   (re_steps AUTH_STURDYREF_RE AUTH_STURDYREF_RE_method s
    <= (N.of_nat (List.length s) + 1) * (furl_K * (N.of_nat (List.length s) + 1) + 1))%N.
 Proof. exact furl_steps_bounded. Qed.
 Print Assumptions C20_furl_steps_bounded_partial.
+
+(* (4) ... and precisely: linear in the length times the NUMBER OF OCCURRENCES OF THE SCHEME "pb://" in the subject *)
+Theorem C20_furl_steps_by_occurrences : forall s,
+  (re_steps AUTH_STURDYREF_RE AUTH_STURDYREF_RE_method s
+   <= 6 * (N.of_nat (List.length s) + 1) + occ ENC_PREFIX s * (furl_K * (N.of_nat (List.length s) + 1)))%N.
+Proof. exact furl_steps_by_occurrences. Qed.
+Print Assumptions C20_furl_steps_by_occurrences.
+
+(* (5) so a FURL in which the scheme occurs at most once (everything a Tub prints) is matched in linear time *)
+Theorem C20_furl_single_scheme_linear : forall s, (occ ENC_PREFIX s <= 1)%N ->
+  (re_steps AUTH_STURDYREF_RE AUTH_STURDYREF_RE_method s <= (furl_K + 6) * (N.of_nat (List.length s) + 1))%N.
+Proof. exact furl_single_scheme_linear. Qed.
+Print Assumptions C20_furl_single_scheme_linear.
+
+(* (6) the anchored alternative (a leading `^`, or .match()) is linear on every subject with the same constant; it accepts
+   fewer strings (FurlProofs.anchoring_changes_language), which is why the finding is left to the maintainers *)
+Theorem C20_furl_anchored_linear : forall meth s,
+  (re_steps (anchored AUTH_STURDYREF_RE) meth s <= furl_K * (N.of_nat (List.length s) + 1))%N /\
+  (re_steps AUTH_STURDYREF_RE MMatch s <= furl_K * (N.of_nat (List.length s) + 1))%N.
+Proof. exact (fun meth s => conj (furl_anchored_linear meth s) (furl_match_linear s)). Qed.
+Print Assumptions C20_furl_anchored_linear.
 
 (* "... so an untrusted FURL (for example one received as a gift) cannot stall ... the process": on a Tub whose peers never
    answer, after ANY history of getReference calls (FURLs with or without a usable hint, for any tub ids) and passage of
@@ -99,7 +213,7 @@ Print Assumptions C20_furl_steps_bounded_partial.
 Theorem C20_no_stall : forall evs,
   waiters (cstep connector_stored_before_connect CONNECTION_TIMEOUT
              (crun connector_stored_before_connect CONNECTION_TIMEOUT evs) (Advance CONNECTION_TIMEOUT)) = [].
-Proof. intros evs. apply (no_stall CONNECTION_TIMEOUT evs). discriminate. Qed.
+Proof. exact no_stall_translated. Qed.
 Print Assumptions C20_no_stall.
 
 (* ... and a FURL with a usable hint for a tub that has no running connector starts a connection attempt, whatever
@@ -108,5 +222,5 @@ Theorem C20_attempt_starts : forall evs t,
   let s := crun connector_stored_before_connect CONNECTION_TIMEOUT evs in
   ~ (exists dl, In (t, dl) (live s)) ->
   In (next s) (started (cstep connector_stored_before_connect CONNECTION_TIMEOUT s (GetRef t true))).
-Proof. intros evs t s H. apply (attempt_starts CONNECTION_TIMEOUT evs t); [discriminate | exact H]. Qed.
+Proof. exact attempt_starts_translated. Qed.
 Print Assumptions C20_attempt_starts.
